@@ -41,6 +41,86 @@ def sample_value(sim, prog, fn, tag):
     return None
 
 
+def check_ewma_histories(chk, prog, sim, up, get, key, depth=3):
+    """Representation-independent EWMA rule: every input history of length <= depth from the constructor state, observed
+    only through get(), against the reference recurrence.  Returns (ok, expression of the second present sample)."""
+    import itertools
+    ug, gg = sim.identity_gargs(up), sim.identity_gargs(get)
+    news = [f for f in prog.find_fns(name="new", self_name="EWMAStream") if not f.get("impl_trait")]
+    if not news:
+        raise AnchorMissing("constructor of EWMAStream")
+    nnames = [x["name"] for x in news[0]["body"]["names"]]
+    av = {}
+    for i, t in enumerate(news[0]["sig_inputs"]):
+        if t.get("k") == "prim" and t.get("name") == "f32" and i < len(nnames):
+            av[nnames[i]] = Sym("self.smoothing_constant", prim("f32"))
+    st0, oid, _ = N.fresh_object(sim, prog, "EWMAStream", new_fn=news[0], arg_values=av)
+    s = A.sym("self.smoothing_constant")
+    ok = True
+    second = None
+    for hist in itertools.product(("E", "N", "S"), repeat=depth):
+        # frontier: (state, reference state, reference output)
+        frontier = [(st0, None, ("N",))]
+        for k, cat in enumerate(hist):
+            tag = "h%d" % k
+            nxt = []
+            for (st, ref, refout) in frontier:
+                if cat == "E":
+                    ref2, out2 = None, ("E", Sym("e" + tag))
+                elif cat == "N":
+                    ref2, out2 = ref, (("N",) if refout[0] == "E" else refout)
+                else:
+                    x, t = A.sym("v" + tag), A.sym("t" + tag)
+                    if ref is None:
+                        val = x
+                    else:
+                        lam = 1 - sp.Pow(1 - s, (t - ref[0]) / 10**9)
+                        val = ref[1] * (1 - lam) + x * lam
+                    ref2, out2 = (t, val), ("S", Sym("t" + tag), val)
+                for leaf in N.update_with(sim, up, ug, st, oid, cat, tag, value=sample_value(sim, prog, up, tag)):
+                    chk.evaluated(1, nontrivial=(key, "hist", hist[:k + 1], repr(leaf.pc)))
+                    if leaf.kind == "unsupported":
+                        chk.violation("analysis-incomplete", key, "EWMA update after history %s: %s" % ("".join(hist[:k + 1]), leaf.info["msg"]), site=K.leaf_site(leaf))
+                        ok = False
+                        continue
+                    if leaf.kind == "panic" and is_quantity_impl(up) and "eq_assume_true" in str(leaf.info.get("msg")):
+                        continue
+                    if leaf.kind != "return":
+                        chk.violation("C12.panic", "%s:panic:history" % key, "EWMAStream::update %s (%s at %s) after the input history %s from a new stream"
+                                      % (leaf.kind, leaf.info.get("msg"), K.leaf_site(leaf), "".join(hist[:k + 1])), fn=up["pretty"], file=loc(up["span"]))
+                        ok = False
+                        continue
+                    for gl in N.get_on(sim, get, gg, leaf.state, oid):
+                        chk.evaluated(1)
+                        if gl.kind != "return":
+                            chk.violation("analysis-incomplete" if gl.kind == "unsupported" else "C12.panic", key + ":get", "EWMAStream::get %s after history %s: %s"
+                                          % (gl.kind, "".join(hist[:k + 1]), gl.info.get("msg")), fn=get["pretty"])
+                            ok = False
+                            continue
+                        out = K.classify_output(sim, gl.state, gl.value)
+                        good = False
+                        try:
+                            if out and out[0] == out2[0]:
+                                if out[0] == "N":
+                                    good = True
+                                elif out[0] == "E":
+                                    good = sim.final_value(gl.state, out[1]) == sim.final_value(gl.state, Sym(out2[1].name, getattr(out[1], "ty", None)))
+                                else:
+                                    got = payload_expr(out[2])
+                                    good = out[1] == out2[1] and A.equal(got, out2[2])
+                                    if good and hist[:2] == ("S", "S") and k == 1:
+                                        second = got
+                        except Exception:
+                            good = False
+                        if not good:
+                            chk.violation("C12.value", "%s:history:%s" % (key, "".join(hist[:k + 1])), "after the input history %s a new EWMAStream's get() returns %r, the recurrence gives %s"
+                                          % ("".join(hist[:k + 1]), out, (out2[0],) + tuple(A.show(x) if hasattr(x, "free_symbols") else x for x in out2[1:])), fn=up["pretty"], file=loc(up["span"]))
+                            ok = False
+                    nxt.append((leaf.state, ref2, out2))
+            frontier = nxt
+    return ok, second
+
+
 def check_ewma(chk, prog, sim):
     exprs = {}
     for (up, get) in impl_pairs(prog, "EWMAStream"):
@@ -49,11 +129,21 @@ def check_ewma(chk, prog, sim):
         chk.obligation(key, "EWMA step, first sample, invariant, panic sites (%s impl)" % variant)
         chk.analysed(up["pretty"])
         ug, gg = sim.identity_gargs(up), sim.identity_gargs(get)
-        ok = True
         sty = subst(up["sig_inputs"][0], ug)["ty"]
         names = [n for n, _ in sim.adt_fields(sty)]
-        vi = [i for i, (n, t) in enumerate(sim.adt_fields(sty)) if is_adt(t, "Result")][0]
-        ti = [i for i, (n, t) in enumerate(sim.adt_fields(sty)) if is_adt(t, "Option")][0]
+        vis = [i for i, (n, t) in enumerate(sim.adt_fields(sty)) if is_adt(t, "Result")]
+        tis = [i for i, (n, t) in enumerate(sim.adt_fields(sty)) if is_adt(t, "Option")]
+        hok, second = check_ewma_histories(chk, prog, sim, up, get, key)
+        if len(vis) != 1 or len(tis) != 1:
+            # the state is not (cached output, update time): the inductive rules below are written for that representation;
+            # the history rule above is the whole verdict, and the float-cast rule runs on every reachable state it saw
+            if second is not None:
+                exprs[variant] = second
+            if hok:
+                chk.discharge(key)
+            continue
+        ok = hok
+        vi, ti = vis[0], tis[0]
 
         def inv(val):
             v, t = val.fields[vi], val.fields[ti]
@@ -221,6 +311,43 @@ def check_moving_average(chk, prog, sim, maxlen):
                 out = K.classify_output(sim, leaf.state, post.fields[vi])
                 if not (out and out[0] == "S" and out[1] == Sym("tn")):
                     chk.violation("C12.value", key + ":output", "moving average output after a present sample is %r" % (out,), fn=up["pretty"], file=loc(up["span"]))
+                    ok = False
+                    continue
+                # which samples survive: the new one, and exactly those queued samples that are not older than the window start (tn - window);
+                # decided per sample from the leaf's path condition
+                kept_times = [repr(sim.resolve(leaf.state, el.fields[0].fields[0])) for el in kept]
+                membership_bad = None
+                if "tn" not in kept_times:
+                    membership_bad = "the new sample is not in the queue after the update"
+                # equalities of two timestamps on this path (ties) are applied by substitution before the lookup
+                eqs = {}
+                for rk, ral in leaf.state.rels.items():
+                    if ral == frozenset("=") and isinstance(rk, Lin) and len(rk.terms) == 2 and rk.c == 0 and sorted(c for _, c in rk.terms) == [-1, 1]:
+                        pos = [a for a, c in rk.terms if c == 1][0]
+                        neg = [a for a, c in rk.terms if c == -1][0]
+                        eqs[pos] = neg
+
+                def subst_eq(x):
+                    for _ in range(4):
+                        if isinstance(x, Lin):
+                            y = Const(x.c)
+                            for a, c in x.terms:
+                                y = int_add(y, int_mul(Const(c), eqs.get(a, a)))
+                            if y == x:
+                                break
+                            x = y
+                    return x
+                for j in range(k):
+                    d = subst_eq(int_add(int_sub(Sym("tq%d" % j), Sym("tn")), wsym))      # t_j - (tn - window)
+                    al = rel_allowed(sim, leaf.state, d, Const(0))
+                    inq = ("tq%d" % j) in kept_times
+                    if al <= {">", "="} and not inq:
+                        membership_bad = "queued sample %d lies inside the window on this path but was dropped" % j
+                    elif al <= {"<"} and inq:
+                        membership_bad = "queued sample %d is older than the window start on this path but was kept" % j
+                if membership_bad:
+                    chk.violation("C12.weights", "%s:membership:k=%d" % (key, k), "moving average with %d queued samples on path %s: %s (the output is no longer the average over the samples inside the window)"
+                                  % (k, [p for p in leaf.pc if p[0] == "rel"], membership_bad), fn=up["pretty"], file=loc(up["span"]))
                     ok = False
                     continue
                 # expected: sum v_i (e_i - s_i) / window over kept samples
